@@ -135,6 +135,15 @@ def availability(repo, rep):
         raise AnalysisError("match_consecutive_partitions: availability list not found")
     loops = [n for n in fi.node.body if isinstance(n, ast.For)]
     if not loops:
+        # the loop that marks every current partition exists but is nested under a condition: it is skipped on some inputs
+        nested = [n for n in ast.walk(fi.node) if isinstance(n, ast.For) and isinstance(n.target, ast.Tuple)]
+        if nested:
+            g_ = getattr(nested[-1], "_parent", None)
+            rep.fail("R-C19-3", fi.file, nested[-1].lineno, fi.qualname, f"matching loop under `{unparse(g_.test)[:60] if isinstance(g_, ast.If) else '?'}`",
+                     "the loop that marks each non-empty current partition as matched / unmatched does not run on every call (an early exit or "
+                     "a guard skips it): newly appearing systems keep the 'empty' marker, never receive an identifier and are not counted",
+                     anchor="match:early-return")
+            return
         raise AnalysisError("match_consecutive_partitions: matching loop not found")
     from ..astutil import returned_names
     mr = returned_names(fi.node)
